@@ -7,6 +7,10 @@
     bodies x suffixes, every escape body in character constants and string
     literals with each prefix, multi-character constants over {a u l}, universal
     character names;
+(D) every run of 1-3 adjacent string literals over {narrow, L, u, U, u8} x
+    bodies with escapes at the seams, as initializer / call argument /
+    _Static_assert message: the Constant carries the first prefix that occurs
+    (whole) and the bodies in order;
 (C) every MUST-ACCEPT literal of (A) and (B) through CParser.parse:
     Constant.value == spelling, Constant.type == the type the suffix / prefix
     implies.
@@ -261,6 +265,80 @@ def _table_work(chunk):
 
 
 # ---------------------------------------------------------------------------
+# (D) runs of adjacent string literals (translation phase 6)
+# ---------------------------------------------------------------------------
+RUN_BODIES = ["a", "", "x" + BS + '"', BS + '"y', BS + BS, "8z", BS + "1"]
+RUN_CONTEXTS = {
+    "initializer": ("char *s = ", ";", lambda ast: ast.ext[0].init),
+    "argument": ("int x = f(", ");", lambda ast: ast.ext[0].init.args.exprs[0]),
+    "static-assert": ("_Static_assert(1, ", ");", lambda ast: ast.ext[0].message),
+}
+
+
+def string_runs():
+    """Every run of 1..3 string literals over the five kinds x RUN_BODIES.
+    -> (list of (prefix, body), unambiguous?) ; a run with two DIFFERENT
+    encoding prefixes is outside what C defines (C11 6.4.5p5: implementation-
+    defined) and is only required not to crash."""
+    lits = [(p, b) for p in PREFIXES for b in RUN_BODIES]
+    for n in (1, 2, 3):
+        for run in itertools.product(lits, repeat=n):
+            yield run, len({p for p, _ in run if p}) <= 1
+
+
+def check_string_run(run, unambiguous, ctx, sep):
+    """The Constant built from a run carries the first prefix that occurs
+    (whole prefix) and the bodies in order; type 'string'."""
+    from pycparser import c_ast
+
+    pre, post, pick = RUN_CONTEXTS[ctx]
+    text = pre + sep.join(p + '"' + b + '"' for p, b in run) + post
+    out = core.parse_outcome(text)
+    if out[0] == "exc":
+        return [("parser:exception:" + out[1].split("@")[0], f"{text!r}: {out[1]} {out[2]}")], text
+    if not unambiguous:
+        return [], text
+    if out[0] != "ok":
+        return [("STRING_RUN:parser-rejects", f"{text!r}: {out[1:]}"[:300])], text
+    try:
+        node = pick(out[1])
+    except Exception as e:  # noqa
+        node = e
+    if not isinstance(node, c_ast.Constant):
+        return [("STRING_RUN:no-constant", f"{text!r}: {node!r}"[:300])], text
+    prefix = next((p for p, _ in run if p), "")
+    want = prefix + '"' + "".join(b for _, b in run) + '"'
+    fails = []
+    if node.type != "string":
+        fails.append(("STRING_RUN:constant-type", f"{text!r}: Constant.type {node.type!r}"))
+    if node.value != want:
+        got_prefix = node.value.partition('"')[0]
+        clause = "prefix" if got_prefix != prefix else "body"
+        fails.append((f"STRING_RUN:{clause}", f"{text!r}: Constant.value {node.value!r}, expected {want!r}"))
+    return fails, text
+
+
+def _runs_work(chunk):
+    n = 0
+    fails = []
+    sigs = set()
+    prefixes = set()
+    for run, unamb in chunk:
+        for ctx in RUN_CONTEXTS:
+            for sep in (" ", ""):
+                fl, text = check_string_run(run, unamb, ctx, sep)
+                n += 1
+                if unamb:
+                    prefixes.add(next((p for p, _ in run if p), ""))
+                for sig, det in fl:
+                    if sig not in sigs or len(fails) < 20:
+                        fails.append((sig, {"string_run": [list(x) for x in run], "context": ctx,
+                                            "sep": sep, "unambiguous": unamb, "text": text}, det))
+                    sigs.add(sig)
+    return n, fails, prefixes
+
+
+# ---------------------------------------------------------------------------
 def run(tier):
     R = core.Run(PID, tier, "model_checking")
     quick = tier == "quick"
@@ -289,6 +367,18 @@ def run(tier):
     for acc in core.pmap(_table_work, core.chunked(table, 400), chunksize=1):
         merge(acc)
 
+    # (D)
+    runs = list(string_runs())
+    runs_n = 0
+    run_prefixes = set()
+    for n, fl, pf in core.pmap(_runs_work, core.chunked(runs, 500), chunksize=1):
+        runs_n += n
+        run_prefixes |= pf
+        R.fail_many(fl)
+    if runs_n != len(runs) * 6 or len(run_prefixes) != 5:
+        R.fail("vacuous:string-runs", {"runs": runs_n, "prefixes": sorted(run_prefixes)},
+               "string-run part not explored")
+
     # vacuity guards
     if charex_strings != sum(17 ** l for l in range(1, L + 1)):
         R.fail("vacuous:too-few-strings", {"strings": charex_strings}, "explored less than the stated bound")
@@ -308,8 +398,10 @@ def run(tier):
 
     R.set("states", tot["ref_items"])
     R.set("transitions", tot["ref_chars"])
-    R.set("traces_validated_against_impl", tot["lexed"] + tot["parsed"] + tot["parsed_any"])
-    R.set("evaluations", tot["lexed"] + tot["parsed"] + tot["parsed_any"])
+    R.set("traces_validated_against_impl", tot["lexed"] + tot["parsed"] + tot["parsed_any"] + runs_n)
+    R.set("evaluations", tot["lexed"] + tot["parsed"] + tot["parsed_any"] + runs_n)
+    R.set("string_run_parses", runs_n)
+    R.set("string_runs", len(runs))
     R.set("parser_runs_on_lenient_single_literals", tot["parsed_any"])
     R.set("distinct_nontrivial", tot["nontrivial"])
     R.set("distinct_outcomes", len(hist))
@@ -327,7 +419,8 @@ def run(tier):
                      "float_bodies": lexvocab.FLOAT_BODIES,
                      "float_suffixes": lexvocab.FLOAT_SUFFIXES + lexvocab.BAD_FLOAT_SUFFIXES,
                      "escape_bodies": len(escape_bodies()), "prefixes": PREFIXES,
-                     "multichar_bodies<=": 5})
+                     "multichar_bodies<=": 5, "string_run_length<=": 3, "string_run_bodies": RUN_BODIES,
+                     "string_run_contexts": sorted(RUN_CONTEXTS), "string_run_separators": [" ", ""]})
     R.assumptions += [
         "DONT-CARE zone (never alarmed): pycparser's documented lenient escapes, decimal escapes, \\x without digits, "
         "pp-numbers that are no constant (1e, 1lul, 0x1e+1, 08e), > 4 c-chars, prefixed multi-character constants",
@@ -352,6 +445,13 @@ def replay(rep):
     c = rep["case"]
     t = c["text"]
     print("input:", repr(t))
+    if "string_run" in c:
+        fl, _ = check_string_run([tuple(x) for x in c["string_run"]], c["unambiguous"],
+                                 c["context"], c["sep"])
+        for sig, det in fl:
+            print("FAIL", sig, det)
+        print("oracle:", "violated" if fl else "fine")
+        return 1 if fl else 0
     if c.get("parser") == "robust":
         fl = parser_robust(t)
         print("parse:", core.parse_outcome("int x = " + t + ";")[:2])
